@@ -38,7 +38,7 @@ def run(ctx):
     # exhaustive: every history of length <= 2 (quick) / <= 4 (thorough) over a 12-symbol alphabet, on empty tables of 1, 2, 3 slots
     depth = 4 if ctx.thorough else 2
     gens = [C.explore(ctx, ctx.n(600, 6000), 12, styles, p_invalid=0.2)] + [C.explore_exhaustive(ctx, n, depth) for n in (1, 2, 3)] \
-        + [C.explore_equal_sizes(ctx, depth=4 if ctx.thorough else 3), C.explore_boundary_sizes(ctx), C.explore_one_object(ctx, depth=5 if ctx.thorough else 4)]
+        + [C.explore_equal_sizes(ctx, depth=4 if ctx.thorough else 3), C.explore_boundary_sizes(ctx), C.explore_one_object(ctx, depth=5 if ctx.thorough else 4), C.explore_two_objects(ctx, ctx.n(200, 4000))]
     for r in itertools.chain(*gens):
         ctx.case((r.desc, str(C.jsonable_hist(r.hist))), nontrivial=C.nontrivial_history(r),
                  sample=dict(start=r.desc, ops=[s["op"][0] + ":" + s["real"] for s in r.steps]), tags=C.history_tags(r))
